@@ -954,6 +954,10 @@ func requestRules() (dynamic []RuleSpec, real []RuleSpec) {
 		{ID: "words:body-star", In: "vf.transcode.Words", Out: "vf.Rsp", Verb: "POST", Tmpl: "/rw/b", Body: "*"},
 		{ID: "words:vars", In: "vf.transcode.Words", Out: "vf.Rsp", Verb: "GET", Tmpl: "/rw/v/{key}/{fields}/{alt}/{sub.id}"},
 		{ID: "words:vars+body-sub", In: "vf.transcode.Words", Out: "vf.Rsp", Verb: "PUT", Tmpl: "/rw/s/{callback}/{pretty_print}", Body: "sub"},
+		// variables followed by a trailing ** (bare and as a variable)
+		vfRule("vf:var-then-starstar", "GET", "/pz/{a}/tail/**", ""),
+		vfRule("vf:vars-then-starstar+body-star", "POST", "/py/{a}/{n}/**", "*"),
+		vfRule("vf:var-then-starstar-var", "GET", "/px/{b}/{c=**}", ""),
 		// typed and bytes variables on rules that also map a body
 		vfRule("vf:var-bytes+body-star", "POST", "/pm/{y}", "*"),
 		vfRule("vf:var-scalars+body-star", "POST", "/pq/{n}/{l}/{u}/{f}/{e}/{dbl}", "*"),
